@@ -153,10 +153,16 @@ class Hist:
         self.keys = set()
         self.tag = 0
         self.maxsize = 0
+        self.null_key = None
 
-    def ins(self, k):
+    def ins(self, k, null=False):
+        """null: the element is represented by the NULL pointer in the C driver (op 'I'; at most one at a time)"""
         self.tag += 1
-        self.ops.append("i%d.%d" % (k, self.tag))
+        if null and (self.null_key is None or self.null_key not in self.keys) and k not in self.keys:
+            self.ops.append("I%d.%d" % (k, self.tag))
+            self.null_key = k
+        else:
+            self.ops.append("i%d.%d" % (k, self.tag))
         self.keys.add(k)
         self.maxsize = max(self.maxsize, len(self.keys))
 
@@ -184,7 +190,7 @@ def universe_for(r, page, tier):
     return r.choice([300, 700, 1500 if tier == "thorough" else 1100])
 
 
-def gen_history(r, page, tier, flags="-", walks=True, nops=None, allow_oracle=True, prefill=None, oracle_p=0.12):
+def gen_history(r, page, tier, flags="-", walks=True, nops=None, allow_oracle=True, prefill=None, oracle_p=0.12, null_p=0.0):
     """one random history: phases biased to grow / shrink / churn; patterns ascending / descending / random"""
     u = universe_for(r, page, tier)
     h = Hist(r, page, flags)
@@ -211,7 +217,7 @@ def gen_history(r, page, tier, flags="-", walks=True, nops=None, allow_oracle=Tr
         elif pat == "rand":
             r.shuffle(ks)
         for k in ks[:prefill]:
-            h.ins(k)
+            h.ins(k, null=r.random() < null_p)
         h.op("w")
     seqk = 0
     mode = r.choice(["rand", "rand", "asc", "desc"])
@@ -244,7 +250,7 @@ def gen_history(r, page, tier, flags="-", walks=True, nops=None, allow_oracle=Tr
                 k = seqk
             if h.keys and r.random() < 0.08:
                 k = r.choice(sorted(h.keys))       # equal rank, different tag -> EXISTS
-            h.ins(k)
+            h.ins(k, null=r.random() < null_p)
         else:
             if h.keys and r.random() < 0.85:
                 ks = sorted(h.keys)
@@ -311,7 +317,7 @@ def sim_sizes(case):
     """python-side set size after each op (for classification), ignoring allocation failures"""
     keys, mx = set(), 0
     for t in case.split()[2:]:
-        if t[0] == "i":
+        if t[0] in "iI":
             keys.add(int(t[1:].split(".")[0]))
         elif t[0] == "r":
             keys.discard(int(t[1:]))
